@@ -1,17 +1,19 @@
 #!/bin/bash
-# seedtest.sh <seed-dir> <property>...   apply a seeded change to /repo, run the named checks, undo it.
+# seedtest.sh <seed-dir> <property>...   apply a seeded change to a scratch copy of /repo's working tree (never to /repo),
+# run the named quick checks against that copy (PVC_REPO_SRC), remove the copy.
 # prints one line per property: exit status and the first VIOLATION / UNDECIDED / ENGINE-ERROR lines
-dir=$1; shift
+dir=$(realpath $1); shift
 cd /verif
-git -C /repo diff --quiet || { echo "/repo is dirty, refusing"; exit 9; }
-PYTHONPATH=/repo/src /venv/bin/python $dir/demo.py >/dev/null 2>&1; before=$?
-git -C /repo apply $(realpath $dir/patch.diff) || { echo "patch does not apply"; exit 9; }
-PYTHONPATH=/repo/src /venv/bin/python $dir/demo.py >/dev/null 2>&1; after=$?
+scratch=$(mktemp -d /tmp/seedrepo.XXXXXX)
+trap 'rm -rf "$scratch"' EXIT
+rsync -a --exclude .git /repo/src "$scratch"/
+PYTHONPATH=$scratch/src /venv/bin/python $dir/demo.py >/dev/null 2>&1; before=$?
+(cd "$scratch" && git apply $dir/patch.diff) || { echo "patch does not apply"; exit 9; }
+PYTHONPATH=$scratch/src /venv/bin/python $dir/demo.py >/dev/null 2>&1; after=$?
 echo "demo: exit $before without the change, exit $after with it"
 for p in "$@"; do
   s=$(date +%s)
-  out=$(PVC_EVIDENCE_DIR=/tmp/seed_evidence timeout 1500 ./vcheck $p quick 2>&1); rc=$?
+  out=$(PVC_REPO_SRC=$scratch/src PVC_EVIDENCE_DIR=$scratch/evidence PVC_REPLAY_DIR=$scratch/replays timeout 1500 ./vcheck $p quick 2>&1); rc=$?
   echo "$p exit=$rc $(( $(date +%s) - s ))s :: $(echo "$out" | grep -E '^(VIOLATION|UNDECIDED|ENGINE-ERROR)' | head -4 | cut -c1-260 | tr '\n' '|')"
+  echo "$out" > /tmp/seedtest_last_$p.log
 done
-git -C /repo checkout -- .
-git -C /repo diff --quiet && echo "repo restored"
